@@ -105,6 +105,9 @@ def tree_desc(draw, max_top=3, max_depth=3, allow_empty=False, family_filter=Non
         media = {"discnum": draw(st.integers(1, total)), "totaldiscs": total}
     checksums = draw(st.dictionaries(st.one_of(option_name, ini_path.filter(lambda p: "=" not in p and ":" not in p)).map(_norm_rel).filter(
         lambda p: p and p[0] not in "#;[/" and p.strip() == p), st.tuples(checksum_type, checksum_value).map(list), max_size=4)) if draw(st.booleans()) else {}
+    if checksums and draw(st.integers(0, 3)) == 0:
+        # entries that did not go through add(): the key is whatever spelling the producer used
+        checksums[draw(st.sampled_from(["./images/boot.iso", "images//boot.iso", "a/../b", "images/./boot.iso", "repodata/"]))] = ["sha256", "ab" * 32]
     desc = {"release": release, "layered": layered, "base_product": bp,
             "tree": {"arch": arch, "build_timestamp": ts, "platforms": platforms},
             "variants": tops, "images": images, "stage2": stage2, "media": media, "checksums": checksums}
@@ -189,7 +192,10 @@ def build_ti(desc, plan=0):
         elif step == "checksums":
             for path in _shuffled(sorted(desc["checksums"]), rnd):
                 ctype, cvalue = desc["checksums"][path]
-                ti.checksums.add(path, ctype, cvalue)
+                if _norm_rel(path) == path:
+                    ti.checksums.add(path, ctype, cvalue)
+                else:
+                    ti.checksums.checksums[path] = (ctype, cvalue)      # not normalised: assigned directly, kept verbatim
     return ti
 
 
